@@ -25,13 +25,16 @@ MANIFEST = dict(
          "docOk — unbounded in pages, rows, cells and text. Every run decides wellFormed (the Lean definition) on the "
          "real output of hundreds of generated configurations (single, multi-section, figure; all header / footnote / "
          "placement / pagination / attribute-shape / font-size variants) and re-prints each real output through the "
-         "grammar to show it is an instance.",
+         "grammar to show it is an instance. Props/C01enc.lean proves C01 for the whole-encoder model: every document "
+         "of the decidable domain InDomain that Model.Encode.encode accepts prints to well-formed RTF (any number of "
+         "pages, rows, columns, any admissible text); the encoder models (single-section, multi-section, figure) are "
+         "compared byte for byte with rtf_encode() on every run.",
     note="Success of rtf_encode() for every accepted configuration is an observation-level clause (the generator "
          "covers the configuration product; exceptions other than the documented ValueError are violations). The "
          "harness's parser of real output into the grammar is trusted only fail-safe: any slip shows as a re-print "
          "mismatch.",
-    technique="Lean 4 proof (lexer/printer inversion, folds over tokens) + Lean-decided oracle on real output + "
-              "grammar-instance correspondence",
+    technique="Lean 4 proof (lexer/printer inversion, folds over tokens; well-formedness of the whole-encoder model's "
+              "output) + Lean-decided oracle on real output + grammar-instance and byte-exact encoder correspondence",
     design="7/C01",
 )
 
@@ -249,8 +252,81 @@ def judge(res, o, wf, tree):
                                f"adjOk={tree['adjOk']})")
 
 
+# ------------------------------------------------------------------ known finding: \cellx0
+
+FINDING_ID = "C01-cellx0-subtwip-column"
+FINDING_WHAT = ("RTFBody(col_rel_width=[1, 100000]) on the default 6.25 in table: the first column is narrower than half "
+                "a twip, round() gives 0 and every row declares \\cellx0 — a boundary that is not positive")
+
+
+def _cellx_worker(args):
+    """(ratio, nrows) → encoded document; runs in a pool worker (rtflite / polars are never imported in the parent)"""
+    try:
+        return _cellx_doc(*args)
+    except Exception as e:  # noqa: BLE001
+        return f"ERROR {type(e).__name__}: {e}"
+
+
+def _cellx_doc(ratio: int, nrows: int = 1):
+    import polars as pl
+    import rtflite as rtf
+
+    df = pl.DataFrame({"a": [f"r{i}c0" for i in range(nrows)], "b": [f"r{i}c1" for i in range(nrows)]})
+    return rtf.RTFDocument(df=df, rtf_body=rtf.RTFBody(col_rel_width=[1, ratio])).rtf_encode()
+
+
+def findings_stream(res) -> list[str]:
+    """re-confirm the listed finding; while it is listed, explore its class with the explained deviation: the ONLY
+    defect of such a document is the zero first boundary (with it replaced by 1 the output is well-formed), and the
+    boundary is zero only where the exact width of the first column is below half a twip"""
+    import re
+    from fractions import Fraction
+
+    listed = {e.get("id") for e in common.known_findings("C01")}
+    lines = []
+    params = [(100000, 1)]
+    for i in range(24):
+        rng = common.sub_rng(res.seed, "c01f", i)
+        params.append((rng.choice([3000, 9000, 17999, 18001, 18500, 40000, 100000, rng.randint(2000, 300000)]),
+                       rng.randint(1, 30)))
+    outs = common.pool_map(_cellx_worker, params, chunksize=4)
+    try:
+        out = outs[0]
+        wf = common.driver_batch([dict(op="wf", rtf=out)])[0]
+        still = "\\cellx0" in out and not wf["ok"]
+        obs = f"{sorted(set(re.findall(r'\\cellx-?[0-9]+', out)))}; Lean wellFormed: {wf['report'][:80]}"
+    except Exception as e:  # noqa: BLE001
+        still, obs = True, f"{type(e).__name__}: {e}"
+    if FINDING_ID not in listed:
+        res.notes.append(f"{'reproduced' if still else 'no longer reproduced'}, not listed in known_findings.json: "
+                         f"{FINDING_ID}: {FINDING_WHAT} (observed {obs})")
+        if still:
+            res.fail(dict(level="finding", ratio=100000), f"{FINDING_WHAT} (observed {obs})")
+        return lines
+    res.known_hits[FINDING_ID] = int(still)
+    if still:
+        lines.append(f"KNOWN-FINDING: property=C01 {FINDING_ID}: {FINDING_WHAT} (observed {obs})")
+    reqs, meta = [], []
+    for (ratio, n), out in zip(params[1:], outs[1:]):
+        exact = Fraction(25, 4) * 1440 / (1 + ratio)          # 6.25 in * 1/(1+ratio), in twips
+        zero = "\\cellx0" in out
+        res.count("cellx0_class:" + ("zero" if zero else "positive"))
+        case = dict(level="finding-class", ratio=ratio, nrows=n)
+        if abs(exact - Fraction(1, 2)) > Fraction(1, 10**6) and zero != (exact < Fraction(1, 2)):
+            res.fail(case, f"first boundary is {'0' if zero else 'positive'} although the exact first-column width is "
+                           f"{float(exact):.4f} twip")
+        reqs.append(dict(op="wf", rtf=out.replace("\\cellx0\n", "\\cellx1\n") if zero else out))
+        meta.append(case)
+    for case, wf in zip(meta, common.driver_batch(reqs)):
+        if not wf["ok"]:
+            res.fail(case, "not well-formed beyond what the zero first boundary explains: " + wf["report"][:200])
+    return lines
+
+
 def run(res, build):
     from .. import emitunit
+
+    known_lines = findings_stream(res)
 
     emitunit.run(res, res.tier)     # unit level: real Row/Cell/TextContent emitters vs Model/Emit.lean, byte-exact
     from .. import encodecorr
@@ -302,12 +378,13 @@ def run(res, build):
         res.count("status:" + o["status"])
         judge(res, o, wf.get(i), tree.get(i))
     return common.finish(
-        res, build, RULE,
+        res, build, RULE, known_lines=known_lines, trusted=
         ["Lean 4.33 kernel; axioms ⊆ {propext, Classical.choice, Quot.sound} (audited per theorem on every run)",
          "Lean compiler for the driver executable",
          "Model/Rtf.lean is our reading of RTF's lexical syntax (the specification the theorems are relative to)",
          "harness/props/c01.py parse of real output into the grammar (fail-safe: checked by byte-exact re-print)"],
-        ["pydantic construction, polars, Pillow are parameters; the configuration product is sampled, not enumerated"],
+        assumptions=["pydantic construction, polars, Pillow are parameters; the configuration product is sampled, not "
+                     "enumerated"],
         explanation="C01_lex_print, C01_balanced, C01_rows, C01_grammar_wellformed, C01_digits hold for every tree / "
                     "grammar instance. wellFormed (Lean) is decided on every real output; each real output is shown to "
                     "be a grammar instance by re-printing it.")
@@ -315,6 +392,26 @@ def run(res, build):
 
 def replay(payload):
     case = payload.get("case") or {}
+    if case.get("level") in ("finding", "finding-class"):
+        from fractions import Fraction
+
+        ratio, n = case["ratio"], case.get("nrows", 1)
+        out = common.pool_map(_cellx_worker, [(ratio, n)] * 4)[0]
+        zero = "\\cellx0" in out
+        exact = Fraction(25, 4) * 1440 / (1 + ratio)
+        wf = common.driver_batch([dict(op="wf", rtf=out), dict(op="wf", rtf=out.replace("\\cellx0\n", "\\cellx1\n"))])
+        print(f"ratio 1:{ratio}, {n} rows: exact first-column width {float(exact):.4f} twip; \\cellx0 present: {zero}; "
+              f"Lean wellFormed: {wf[0]['report'][:100]}; with the zero boundary replaced by 1: {wf[1]['report'][:100]}")
+        listed = FINDING_ID in {e.get("id") for e in common.known_findings("C01")}
+        explained = listed and (not zero or exact < Fraction(1, 2) + Fraction(1, 10**6)) and wf[1]["ok"]
+        if wf[0]["ok"]:
+            print("property holds on this input")
+            return 0
+        if explained:
+            print(f"KNOWN-FINDING: property=C01 {FINDING_ID}: {FINDING_WHAT}")
+            return 0
+        print("VIOLATION property=C01 replay=<given>")
+        return 1
     if case.get("level") == "encode-doc2":
         from .. import encodecorr2
 
